@@ -283,7 +283,7 @@ from gpmc import interp as _ip
 
 
 from gpmc import manyobj as _mo
-SUBCHECKS = [Sub('inverse', gen, ev, chunk=2, floor=1000, envs=8), Sub('bands', gen_bands, ev, chunk=2, floor=500), Sub('types', gen_types, ev_types, chunk=1, floor=100, envs=2), Sub('threads', _tg, _te, chunk=1, floor=3, poison=False, fresh=True, timeout=3600), Sub('many_objects', *_mo.make('C05', 'geodesy'), chunk=1, floor=3, poison=False, fresh=True, timeout=3600), Sub('callforms', *_cf.make('C05', 'geodesy'), chunk=1, floor=1, guard=True), Sub('interpreter', *_ip.make('C05', 'geodesy'), chunk=1, floor=5, poison=False)]
+SUBCHECKS = [Sub('inverse', gen, ev, chunk=2, floor=1000, envs=8), Sub('bands', gen_bands, ev, chunk=2, floor=500), Sub('types', gen_types, ev_types, chunk=1, floor=100, envs=2), Sub('threads', _tg, _te, chunk=1, floor=3, poison=False, fresh=True, timeout=7200), Sub('many_objects', *_mo.make('C05', 'geodesy'), chunk=1, floor=3, poison=False, fresh=True, timeout=7200), Sub('callforms', *_cf.make('C05', 'geodesy'), chunk=1, floor=1, guard=True), Sub('interpreter', *_ip.make('C05', 'geodesy'), chunk=1, floor=5, poison=False)]
 
 
 def bounds(tier, seed):
